@@ -26,7 +26,9 @@ for p in props:
         "engine": "sa",
         "level_claimed": {"category": "other", "text": m.CLAIM, "design_ref": "DESIGN.md section 3, " + pid},
         "level_note": "; ".join(m.ASSUMPTIONS),
-        "technique": getattr(m, "TECHNIQUE", "static analysis over ast: CFG dataflow / dominance / set comparison"),
+        "technique": getattr(m, "TECHNIQUE", "static analysis over ast: CFG dataflow / dominance / set comparison") +
+        "; guarded normal forms (if-conversion + copy propagation) compared as tables with the confirmed baseline, differential presence-test and call-site/signature agreement rules, "
+        "equivalence prover on effect-sequence normal forms so that verdicts survive behaviour-preserving edits (all on the ast; nothing executed)",
     })
 man = {
     "version": 1,
@@ -42,11 +44,11 @@ man = {
         "name": "sa",
         "path": "sa/",
         "serves_properties": [c["property_id"] for c in checks],
-        "kind_free_text": "repository-specific static analyser over CPython ast: program model (classes, MRO, aliases, decorators, callee resolution), statement-level CFG with exceptional and generator-abandon edges, forward dataflow (lock typestate, must-hold branch facts, intervals, nullness), exception-escape effect analysis, time-unit inference, constant-table folding, field-coverage and sibling-agreement set comparisons. Nothing from /repo is imported or executed.",
+        "kind_free_text": "repository-specific static analyser over CPython ast: program model (classes, MRO, aliases, decorators, callee resolution), statement-level CFG with exceptional and generator-abandon edges, forward dataflow (lock typestate, must-hold branch facts, intervals, nullness), exception-escape effect analysis, time-unit inference, constant-table folding, field-coverage and sibling-agreement set comparisons; a canonical view of changed code (new helpers / constants / temporaries inlined), guarded normal forms compared as decision tables with reference snippets and with the confirmed baseline source (sa/baseline_src.json), and an equivalence prover on effect-sequence normal forms that lets every rule analyse the confirmed spelling of a function proven unchanged. Nothing from /repo is imported or executed.",
     }],
     "checks": checks,
     "not_applicable": na,
-    "notes": "Every claim is partial: structural necessary conditions of the property decided from source; the value-level behavioural core of each property is declared NOT decided (see DESIGN.md section 3 and each check's level_claimed.text). Exit 2 + ANALYSIS-ERROR = the analyser could not decide (anchor vanished / idiom not modelled); it never passes silently. known_findings.json lists genuine defects (fixed ones suppress nothing).",
+    "notes": "Every claim is partial: structural necessary conditions of the property decided from source; the value-level behavioural core of each property is declared NOT decided (see DESIGN.md section 3 and each check's level_claimed.text). Exit 2 + ANALYSIS-ERROR = the analyser could not decide on confirmed (or proven-equivalent) code (anchor vanished / idiom not modelled / checker fault); an anchor missing from a function that was changed and is not proven equivalent is reported as a violation (exit 1); nothing passes silently. known_findings.json lists genuine defects (fixed ones suppress nothing).",
 }
 json.dump(man, open(os.path.join(V, "MANIFEST.json"), "w"), indent=1)
 print("claimed:", [c["property_id"] for c in checks], "n/a:", len(na))
